@@ -141,7 +141,7 @@ func streamFloat(thorough bool) {
 	if thorough {
 		n = 500000
 	}
-	ops := []string{"add", "sub", "mul", "div", "min", "round", "rte", "floor", "lt", "le", "eq", "isnan", "trunc", "ofnat"}
+	ops := []string{"add", "sub", "mul", "div", "min", "max", "round", "rte", "floor", "ceil", "tr", "abs", "lt", "le", "eq", "isnan", "trunc", "ofnat"}
 	for i := 0; i < n; i++ {
 		op := ops[rng.Intn(len(ops))]
 		x, y := randFloatBits(), randFloatBits()
@@ -164,6 +164,14 @@ func streamFloat(thorough bool) {
 			r = math.Float64bits(math.RoundToEven(fx))
 		case "floor":
 			r = math.Float64bits(math.Floor(fx))
+		case "ceil":
+			r = math.Float64bits(math.Ceil(fx))
+		case "tr":
+			r = math.Float64bits(math.Trunc(fx))
+		case "abs":
+			r = math.Float64bits(math.Abs(fx))
+		case "max":
+			r = math.Float64bits(math.Max(fx, fy))
 		case "lt":
 			r = b2u(fx < fy)
 		case "le":
@@ -186,7 +194,7 @@ func streamFloat(thorough bool) {
 			x = uint64(rng.Intn(1 << 30))
 			r = math.Float64bits(float64(x))
 		}
-		if (op == "add" || op == "sub" || op == "mul" || op == "div" || op == "min" || op == "round" || op == "rte" || op == "floor") && math.IsNaN(math.Float64frombits(r)) {
+		if (op == "add" || op == "sub" || op == "mul" || op == "div" || op == "min" || op == "max" || op == "round" || op == "rte" || op == "floor" || op == "ceil" || op == "tr" || op == "abs") && math.IsNaN(math.Float64frombits(r)) {
 			// NaN payloads are not modelled: canonicalise
 			r = 0x7ff8000000000001
 			emit("U "+op+" "+strconv.FormatUint(x, 16)+" "+strconv.FormatUint(y, 16), "nan")
